@@ -45,20 +45,20 @@ def serializer_classes(eng):
     return sorted(out, key=lambda c: c.qualname)
 
 
-def check_escape(eng, run, summ):
+ENTRY_POINTS = (("deserialize", ONE_SHOT_OK, "DeserializeError"), ("incremental_deserialize", INCR_OK, "IncrementalDeserializeError"),
+                ("buffered_incremental_deserialize", INCR_OK, "IncrementalDeserializeError"))
+
+
+def entry_escapes(eng, summ, entry_points=ENTRY_POINTS):
+    """(class, method name, label, defining function, all escaping tokens, input-dependent tokens outside the allowed set)
+    for every concrete serializer entry point; shared with C05.err (one-shot only)."""
     lat = eng.lattice
-    n_entry = 0
-    n_sites = 0
     for ci in serializer_classes(eng):
-        for mname, allowed, label in (("deserialize", ONE_SHOT_OK, "DeserializeError"), ("incremental_deserialize", INCR_OK, "IncrementalDeserializeError"),
-                                      ("buffered_incremental_deserialize", INCR_OK, "IncrementalDeserializeError")):
+        for mname, allowed, label in entry_points:
             fn = ci.find_method(mname)
             if fn is None or is_abstract_body(fn) or fn.has_decorator("abstractmethod"):
                 continue
             toks = summ.escapes(fn, ci)
-            key = (fn.qualname, ci.qualname)
-            n_entry += 1
-            n_sites += len(summ.sites.get(key, []))
             bad = []
             for t in toks:
                 if any(lat.is_sub(t, a) for a in allowed):
@@ -70,6 +70,18 @@ def check_escape(eng, run, summ):
                 if t == "#expected_decompress_error":
                     continue
                 bad.append(t)
+            yield ci, mname, label, fn, toks, bad
+
+
+def check_escape(eng, run, summ):
+    lat = eng.lattice
+    n_entry = 0
+    n_sites = 0
+    if True:
+        for ci, mname, label, fn, toks, bad in entry_escapes(eng, summ):
+            key = (fn.qualname, ci.qualname)
+            n_entry += 1
+            n_sites += len(summ.sites.get(key, []))
             for t in bad:
                 tr = summ.witness.get(key, {}).get(t, ())
                 stmt = _stmt_on_path(fn, tr)
